@@ -24,6 +24,9 @@ func init() {
 			{Int(2), Null, Int(2), Float(1.5)},
 			{Null, Str("x"), Int(7), Null},
 			{Null, Null, Null, Null},
+			// additive inverses and zero: a group whose inputs sum to exactly 0 is not an empty group
+			{Int(1), Str("x"), Int(3), Float(2.0)},
+			{Int(2), Null, Int(0), Float(-0.5)},
 			{Int(1), Str("x"), Int(2), Float(0.5)},
 		}
 		cols := []string{"g", "h", "x", "f"}
@@ -85,8 +88,8 @@ func init() {
 			t := mkCSV("t", cols, rows)
 			for ki, keys := range keysets {
 				for ai, al := range agglists {
-					if !r.Thorough() && (ti+ki+ai)%3 != 0 && len(rows) > 1 {
-						continue // quick: a third of the (table, keys, aggregates) product for tables with more than one row
+					if !r.Thorough() && (ti+ki+ai)%5 != 0 && len(rows) > 1 {
+						continue // quick: a fifth of the (table, keys, aggregates) product for tables with more than one row
 					}
 					cases = append(cases, cs{mkq(t, keys, al, "")}, cs{mkq(t, keys, al, "TRIGGER COUNTING 1000")})
 					if ai%5 == 0 && len(keys) > 0 {
@@ -101,7 +104,7 @@ func init() {
 			}
 		}
 		r.Bound = map[string]interface{}{"tables": len(tables), "key_sets": len(keysets), "aggregate_lists": len(agglists), "cases": len(cases)}
-		r.Rule = "GROUP BY queries (0-2 key expressions incl. g+1; count(*)/count/sum/avg/min/max/array_agg and DISTINCT variants over Int, Float and String columns, alone and in lists of 3; HAVING-like outer WHERE) x every multiset of <=3 (4) rows over 7 NULL-heavy candidate rows, each run with the hash-map implementation and with TRIGGER COUNTING 1000 (btree implementation), through the real root command vs the reference grouping; non-trivial = result with at least two groups or a NULL aggregate"
+		r.Rule = "GROUP BY queries (0-2 key expressions incl. g+1; count(*)/count/sum/avg/min/max/array_agg and DISTINCT variants over Int, Float and String columns, alone and in lists of 3; HAVING-like outer WHERE) x every multiset of <=3 (4) rows over 9 NULL-heavy candidate rows (incl. values that cancel to 0), each run with the hash-map implementation and with TRIGGER COUNTING 1000 (btree implementation), through the real root command vs the reference grouping; non-trivial = result with at least two groups or a NULL aggregate"
 		r.Assume("an empty input with zero key expressions is not judged (the statement says one row per distinct key; SQL would print one row)", "float aggregates over dyadic values compare exactly")
 		cache := newFPCache()
 		enum.Parallel(len(cases), func(i int) {
